@@ -208,8 +208,6 @@ def _strip_flags(text):
 
 def agree(case, out, res):
     if 'err' in res:
-        if classify(case, 'raised ' + res['err'], out) == KEY_SCALAR:
-            return None     # recorded finding: the model does not mirror this crash
         return None if out.startswith('err') else 'impl raised %s (%s), model %s' % (res['err'], res.get('msg'), out[:80])
     if not out.startswith('ok '):
         return 'model %s, impl returned' % out[:80]
@@ -347,11 +345,6 @@ def _first_var(e):
 
 
 def classify(case, failure, model_out):
-    if case['kind'] == 'eval' and failure.startswith('raised AttributeError'):
-        vs = {v['name']: v for v in case['spec']['vars']}
-        names = [n for n in _all_vars(case['expr'])]
-        if all(vs[n]['dims'] == [] for n in names) and any(vs[n]['masked'] for n in names):
-            return KEY_SCALAR
     return None
 
 
@@ -368,10 +361,7 @@ def _all_vars(e):
 
 
 def witnesses():
-    spec = dict(dims=[['t', 3, False]], attrs=[],
-                vars=[dict(name='V0', dims=[], dtype='d', masked=True, attrs=['fill_value'], data=[-6.0])])
-    return [(KEY_SCALAR, dict(kind='eval', spec=spec, expr=['bin', 'sub', ['var', 'V0'], ['lit', '3/2']],
-                              target='NEWVAR', coords=[]))]
+    return []
 
 
 def nontrivial(case, res):
